@@ -35,7 +35,7 @@ LoopRun(s, ord, fuel) ==
        IF t.stut THEN TRUE ELSE LoopRun(t, ord, fuel - 1)
 Small(e) == e.nv <= 4 /\ Len(e.cnf) <= 6
 ModelLoops(e) == LET s0 == Start(e.cnf, 0, e.dedup) IN
-                 LoopRun(s0, e.order, 1500) \/ (Small(e) /\ LoopSearch({s0}, {s0}, 400))
+                 (Len(e.cnf) <= 30 /\ LoopRun(s0, e.order, 600)) \/ (Small(e) /\ LoopSearch({s0}, {s0}, 400))
 
 \* ---- or did the run itself cycle?  The driver records what the last three calls of `backtrack` did (run-time
 \* observation, no source change): conflict clause, learned clause, trail after the back-jump, level returned.  Three
